@@ -449,11 +449,13 @@ def analysis(case, i):
             defs.setdefault(me["meth"], []).append((c, me))
     tag = lambda c, me: f"{cl[c]['name']}.{me['meth']}"  # noqa: E731
     overridden_parsers, overridden_checks_other_kind = set(), set()
+    names_of = {}  # tag -> names the compiled Check / Parser may carry
     for name, lst in defs.items():
         for pos, (c, me) in enumerate(lst):
             if pos == 0:
                 continue
             more_derived = [x[1]["kind"] for x in lst[:pos]]
+            names_of[tag(c, me)] = {me["meth"], me.get("name")}
             if me["kind"] in ("parser", "dfparser"):
                 overridden_parsers.add(tag(c, me))
             elif me["kind"] in ("check", "dfcheck") and me["kind"] not in more_derived:
@@ -479,7 +481,7 @@ def analysis(case, i):
     series = any(f["style"] in ("series", "index") and f["ann"] != "dttz" for f in eff["fields"]) and case["backend"] == "pandas"
     regex_nonstr = (any(me.get("regex") for lst in defs.values() for _, me in lst)
                     and any(not isinstance(f["name"], str) for f in eff["fields"]))
-    return {"regex_nonstr": regex_nonstr, "overridden_parsers": overridden_parsers, "overridden_checks_other_kind": overridden_checks_other_kind,
+    return {"names_of": names_of, "regex_nonstr": regex_nonstr, "overridden_parsers": overridden_parsers, "overridden_checks_other_kind": overridden_checks_other_kind,
             "shared_named": shared_named, "multi_ref": multi_ref, "series": series,
             "metadata": eff["opts"].get("metadata")}
 
@@ -552,9 +554,13 @@ def _explain(case, kind, detail):
         return None
     if kind == "to_schema-raised:SchemaInitError":
         msg = str((detail.get("observed") or {}).get("msg"))
-        if msg.startswith("Parser ") and "non-existing field" in msg and a["overridden_parsers"]:
+        # "Parser <name> is assigned to a non-existing field ...": <name> must be one of the overridden methods
+        word = msg.split(" ")[1] if msg.count(" ") >= 2 else None
+        if msg.startswith("Parser ") and "non-existing field" in msg and any(
+                word in a["names_of"].get(t, ()) for t in a["overridden_parsers"]):
             return "C16/parser-override-ignored"
-        if msg.startswith("Check ") and "non-existing field" in msg and a["overridden_checks_other_kind"]:
+        if msg.startswith("Check ") and "non-existing field" in msg and any(
+                word in a["names_of"].get(t, ()) for t in a["overridden_checks_other_kind"]):
             return "C16/check-overridden-by-other-kind"
         return None
     return None
@@ -646,12 +652,12 @@ def selftest():
 
 
 FAMILIES = [
-    Family("pandas_models", evaluate, strategy=lambda: G.strategy("pandas"), n_quick=150, n_thorough=4000,
-           shards_quick=5, shards_thorough=12,
+    Family("pandas_models", evaluate, strategy=lambda: G.strategy("pandas"), n_quick=120, n_thorough=4000,
+           shards_quick=6, shards_thorough=12,
            required_labels=["verdict=accept", "verdict=reject", "override-field", "override-method", "alias",
                             "regex-field", "config-extras", "diamond", "method:parser", "optional",
                             "avoids-known-defect-features"]),
-    Family("polars_models", evaluate, strategy=lambda: G.strategy("polars"), n_quick=150, n_thorough=4000,
+    Family("polars_models", evaluate, strategy=lambda: G.strategy("polars"), n_quick=120, n_thorough=4000,
            shards_quick=2, shards_thorough=4,
            required_labels=["verdict=accept", "verdict=reject", "override-field", "override-method", "alias",
                             "diamond"]),
